@@ -35,6 +35,12 @@ def pytest_configure(config):
         from pv import c10_sentinel as S
         _state['install'] = S.install()
         S.set_sink(_sink)
+        if os.environ.get('PV_CONTRACTS', '1') == '1':
+            try:   # M6 contracts ride along on the repository's tests as well
+                from pv import contracts
+                _state['contracts_installed'] = contracts.install()
+            except Exception as exc:  # noqa: BLE001
+                _state['contracts_error'] = repr(exc)
 
 
 def pytest_runtest_logstart(nodeid, location):
@@ -80,5 +86,8 @@ def pytest_sessionfinish(session, exitstatus):
            'events': _state['events'], 'exitstatus': int(exitstatus),
            'wall_s': time.time() - _state['t0'], 'last_error': summ['last_error'],
            'depth_leak': _state.get('depth_leak', 0), 'depth_leak_first': _state.get('depth_leak_first')}
+    if 'contracts_installed' in _state:
+        from pv import contracts
+        rec['contracts'] = contracts.report()
     with open(os.path.join(out, f'c10_{wid}_{os.getpid()}.json'), 'w') as f:
         json.dump(rec, f, default=repr)
